@@ -26,7 +26,8 @@
 (*   HashImpl       the implementation's key induces the same partition    *)
 (*                                                                         *)
 (* If EmitStride > 0 the Compare step prints CASE lines                    *)
-(*   <<"CASE", "[x, y, sign, canonEqual]">>  (x, y: code point arrays)     *)
+(*   <<"CASE", "[x, y, sign, canonEqual, sign of (y, x)]">>                *)
+(* (x, y: code point arrays)                                               *)
 (* for the pairs selected by a checksum (every pair when EmitStride = 1);  *)
 (* harness/props/c03.py replays them into debian_support.Version.  The     *)
 (* table of operator results per sign is printed once as OPS lines.        *)
@@ -79,7 +80,7 @@ Compare ==
                           !.impl = ICmpPrepared(ia.i, ib.i),
                           !.ceq = (ia.c = ib.c), !.keq = (ia.k = ib.k)]
     /\ UNCHANGED <<v1, v3>>
-    /\ (Selected(v1, v2') => PrintT(<<"CASE", ToJson(<<v1, v2', out'.ref, out'.ceq>>)>>))
+    /\ (Selected(v1, v2') => PrintT(<<"CASE", ToJson(<<v1, v2', out'.ref, out'.ceq, out'.rev>>)>>))
 
 Third ==
     /\ Triples /\ v2 # None /\ v3 = None
